@@ -53,11 +53,17 @@ fn check_batch(b: &Batch) -> Result<(), (usize, String)> {
     for (i, v) in b.vels.iter().enumerate() {
         let a = addr_of(b, i);
         if b.update {
+            if b.hi % 4 == 1 {
+                // the aircraft first reported from the ground (surface position squitter, which shows no altitude): the
+                // airborne velocity squitters that follow are decoded all the same
+                lines.push(bits::es(17, 5, a, bits::me_surfpos(6, 20, 1, 40, 0, (i % 2) as u32, 0x1234 + i as u32, 0x2345)).hex());
+            }
             lines.push(bits::es(17, 5, a, bits::me_velocity(&PREV)).hex());
             if b.hi % 3 == 0 {
                 // a low barometric altitude (1000 ft): a negative GNSS difference larger than it must not matter
                 lines.push(bits::df4(a, bits::ac13_q1(80), 0).hex());
             }
+
         }
         lines.push(bits::es(17, b.ca, a, bits::me_velocity(v)).hex());
     }
